@@ -555,8 +555,15 @@ pub fn check(case: &Case, st: &mut Stats, ex: &Excl) -> Result<(), String> {
         st.count("rewrite_is_identity");
         return Ok(());
     }
-    let a = sem::build_side(&src_p, &case.sem.opts(), case.sem.layout_shuffle);
-    let b = sem::build_side(&src_q, &case.sem.opts(), case.sem.layout_shuffle);
+    // one case in four is compiled with the source listing on (both spellings): the listing must not
+    // change what the generator knows at the entry of a function
+    let mut o = case.sem.opts();
+    o.insert_code = case.sem.layout_shuffle % 4 == 3;
+    if o.insert_code {
+        st.count("with_source_listing");
+    }
+    let a = sem::build_side(&src_p, &o, case.sem.layout_shuffle);
+    let b = sem::build_side(&src_q, &o, case.sem.layout_shuffle);
     let (ia, ib) = match (a, b) {
         (Side::Ok(_, x), Side::Ok(_, y)) => (x, y),
         (Side::Ok(..), Side::Rejected(m)) | (Side::Rejected(m), Side::Ok(..)) => {
